@@ -152,23 +152,32 @@ def _atom(v):
     return None
 
 
-def snapshot(node):
-    """Deep, order-preserving value of every attrs field (incl. data_type and metadata)."""
+def snapshot(node, _path=()):
+    """Deep, order-preserving value of every attrs field (incl. data_type and metadata).
+
+    Robust against whatever a changed library may hang into a metadata dict: an object met again on the path from the
+    root (a cycle) or deeper than 200 levels is recorded by class name only.
+    """
     a = _atom(node)
     if a is not None:
         return a
+    if any(node is x for x in _path) or len(_path) > 200:
+        return ('again', type(node).__name__)
+    path = _path + (node,)
     if isinstance(node, (tuple, list)):
-        return ('seq',) + tuple(snapshot(v) for v in node)
+        return ('seq',) + tuple(snapshot(v, path) for v in node)
+    if isinstance(node, (set, frozenset)):
+        return ('set',) + tuple(sorted((snapshot(v, path) for v in node), key=repr))
     if isinstance(node, dict):
-        return ('dict',) + tuple((k, snapshot(v)) for k, v in node.items())
+        return ('dict',) + tuple((snapshot(k, path), snapshot(v, path)) for k, v in node.items())
     if hasattr(node, '__attrs_attrs__'):
         out = [type(node).__name__]
         for at in node.__attrs_attrs__:
-            out.append((at.name, snapshot(getattr(node, at.name))))
+            out.append((at.name, snapshot(getattr(node, at.name), path)))
         return tuple(out)
     if hasattr(node, 'value') and hasattr(node, 'name'):
         return ('enum', type(node).__name__, repr(node.value))
-    return ('obj', repr(node))
+    return ('obj', repr(node)[:200])
 
 
 ###############################################################################
